@@ -307,6 +307,8 @@ enum Op {
     ToOwned,
     BorrowToOwned,
     IntoOwned,
+    /// continue on `e.borrow()` (a view whose buffer is borrowed and already holds the attributes)
+    Borrow,
 }
 
 const NAMES: [&str; 3] = ["a", "bb", "ccc"];
@@ -320,7 +322,7 @@ fn ops() -> Vec<Op> {
             v.push(Op::Push(k, x));
         }
     }
-    v.extend([Op::Extend, Op::Clear, Op::WithAttrs, Op::ToOwned, Op::BorrowToOwned, Op::IntoOwned]);
+    v.extend([Op::Extend, Op::Clear, Op::WithAttrs, Op::ToOwned, Op::BorrowToOwned, Op::IntoOwned, Op::Borrow]);
     v
 }
 
@@ -347,56 +349,81 @@ fn utf8_decoder() -> quick_xml::encoding::Decoder {
     Reader::from_str("").decoder()
 }
 
-fn edit_machine(seq: &[Op]) -> Result<(), String> {
+/// How the start tag comes into being: the buffer behind it is owned or borrowed, with or without
+/// attributes already in it.
+const INITS: [&str; 4] = ["new(\"a\")", "from_content(\"a k=\\\"v w\\\"\", 1)", "read from <a k=\"v w\" n:m=''>", "new(String)"];
+
+fn edit_machine_from(init: usize, seq: &[Op]) -> Result<(), String> {
     let r = guarded(|| -> Result<(), String> {
-        let mut e = BytesStart::new("a");
-        let mut name = "a".to_string();
-        let mut attrs: Vec<(String, String)> = Vec::new();
-        for (i, op) in seq.iter().enumerate() {
-            match *op {
-                Op::SetName(n) => {
-                    e.set_name(NAMES[n as usize].as_bytes());
-                    name = NAMES[n as usize].to_string();
+        let name = "a".to_string();
+        match init {
+            0 => apply_ops(BytesStart::new("a"), name, Vec::new(), seq, 0),
+            1 => apply_ops(BytesStart::from_content("a k=\"v w\"", 1), name, vec![("k".into(), "v w".into())], seq, 0),
+            2 => {
+                let mut r = Reader::from_str("<a k=\"v w\" n:m=''>");
+                match r.read_event() {
+                    Ok(Event::Start(e)) => apply_ops(e, name, vec![("k".into(), "v w".into()), ("n:m".into(), "".into())], seq, 0),
+                    other => Err(format!("MACHINERY: reading the start tag gave {:?}", other)),
                 }
-                Op::Push(k, v) => {
-                    e.push_attribute((KEYS[k as usize], VALS[v as usize]));
-                    attrs.push((KEYS[k as usize].to_string(), VALS[v as usize].to_string()));
-                }
-                Op::Extend => {
-                    e.extend_attributes([("x", "1"), ("y", "<2>")]);
-                    attrs.push(("x".into(), "1".into()));
-                    attrs.push(("y".into(), "<2>".into()));
-                }
-                Op::Clear => {
-                    e.clear_attributes();
-                    attrs.clear();
-                }
-                Op::WithAttrs => {
-                    e = e.with_attributes([Attribute::from(("w", "&"))]);
-                    attrs.push(("w".into(), "&".into()));
-                }
-                Op::ToOwned => e = e.to_owned(),
-                Op::BorrowToOwned => e = e.borrow().to_owned(),
-                Op::IntoOwned => e = e.into_owned(),
             }
-            check_start(&e, &name, &attrs).map_err(|m| format!("after step #{} ({:?}): {}", i, op, m))?;
+            _ => apply_ops(BytesStart::new(String::from("a")), name, Vec::new(), seq, 0),
         }
-        // written and re-read
-        let mut w = Writer::new(Vec::new());
-        w.write_event(Event::Start(e.borrow())).unwrap();
-        w.write_event(Event::Empty(e.borrow())).unwrap();
-        let bytes = w.into_inner();
-        let got = read_back(&bytes)?;
-        let want = vec![Canon::Start(name.clone(), attrs.clone()), Canon::Empty(name, attrs)];
-        if got != want {
-            return Err(format!("written {:?}, read back {:?}, model {:?}", lossy(&bytes), got, want));
-        }
-        Ok(())
     });
     match r {
         Ok(x) => x,
         Err(p) => Err(format!("panic: {}", p)),
     }
+}
+
+/// Applies `seq[idx..]` to `e` (the model is `name` + `attrs`), checking after every step; `Borrow`
+/// continues on a borrowed view of the event (recursion keeps the owner alive).
+fn apply_ops(mut e: BytesStart, mut name: String, mut attrs: Vec<(String, String)>, seq: &[Op], idx: usize) -> Result<(), String> {
+    for i in idx..seq.len() {
+        let op = seq[i];
+        match op {
+            Op::SetName(n) => {
+                e.set_name(NAMES[n as usize].as_bytes());
+                name = NAMES[n as usize].to_string();
+            }
+            Op::Push(k, v) => {
+                e.push_attribute((KEYS[k as usize], VALS[v as usize]));
+                attrs.push((KEYS[k as usize].to_string(), VALS[v as usize].to_string()));
+            }
+            Op::Extend => {
+                e.extend_attributes([("x", "1"), ("y", "<2>")]);
+                attrs.push(("x".into(), "1".into()));
+                attrs.push(("y".into(), "<2>".into()));
+            }
+            Op::Clear => {
+                e.clear_attributes();
+                attrs.clear();
+            }
+            Op::WithAttrs => {
+                e = e.with_attributes([Attribute::from(("w", "&"))]);
+                attrs.push(("w".into(), "&".into()));
+            }
+            Op::ToOwned => e = e.to_owned(),
+            Op::BorrowToOwned => e = e.borrow().to_owned(),
+            Op::IntoOwned => e = e.into_owned(),
+            Op::Borrow => {
+                let b = e.borrow();
+                check_start(&b, &name, &attrs).map_err(|m| format!("after step #{} ({:?}): {}", i, op, m))?;
+                return apply_ops(b, name, attrs, seq, i + 1);
+            }
+        }
+        check_start(&e, &name, &attrs).map_err(|m| format!("after step #{} ({:?}): {}", i, op, m))?;
+    }
+    // written and re-read
+    let mut w = Writer::new(Vec::new());
+    w.write_event(Event::Start(e.borrow())).unwrap();
+    w.write_event(Event::Empty(e.borrow())).unwrap();
+    let bytes = w.into_inner();
+    let got = read_back(&bytes)?;
+    let want = vec![Canon::Start(name.clone(), attrs.clone()), Canon::Empty(name, attrs)];
+    if got != want {
+        return Err(format!("written {:?}, read back {:?}, model {:?}", lossy(&bytes), got, want));
+    }
+    Ok(())
 }
 
 // ------------------------------------------------------------------------------------------------
@@ -563,20 +590,23 @@ pub fn run(ctx: &Ctx) {
     let ops = ops();
     let ko = ops.len() as u64;
     let depth = if full { t.pick(5, 6) } else { 3 };
-    ctx.layer("c.bytes_start_edit_machine", 2, count_upto(ko, depth), json!({"operations": ops.iter().map(|o| format!("{:?}", o)).collect::<Vec<_>>(), "max_depth": depth}), |i, acc| {
+    let ninit = INITS.len() as u64;
+    ctx.layer("c.bytes_start_edit_machine", 2, count_upto(ko, depth) * ninit, json!({"operations": ops.iter().map(|o| format!("{:?}", o)).collect::<Vec<_>>(), "max_depth": depth, "initial_events": INITS}), |i0, acc| {
+        let init = (i0 % ninit) as usize;
+        let i = i0 / ninit;
         let mut d = Vec::new();
         decode_upto(ko, depth, i, &mut d);
         let seq: Vec<Op> = d.iter().map(|&x| ops[x as usize]).collect();
         acc.evaluations += 1;
         acc.traces += 1;
         acc.transitions += seq.len() as u64;
-        match edit_machine(&seq) {
+        match edit_machine_from(init, &seq) {
             Ok(()) => {
-                if seq.iter().any(|o| matches!(o, Op::SetName(_))) && seq.iter().any(|o| matches!(o, Op::Push(..) | Op::Extend)) {
+                if seq.iter().any(|o| matches!(o, Op::SetName(_))) && (init == 1 || init == 2 || seq.iter().any(|o| matches!(o, Op::Push(..) | Op::Extend))) {
                     acc.nt_count += 1;
                 }
             }
-            Err(what) => acc.violation((2, i), format!("BytesStart edits {:?}: {}", seq, what), json!({"kind": "edit", "ops": d})),
+            Err(what) => acc.violation((2, i0), format!("BytesStart {} then edits {:?}: {}", INITS[init], seq, what), json!({"kind": "edit", "ops": d, "init": init})),
         }
     });
 
@@ -672,8 +702,9 @@ pub fn replay(case: &Value) -> Result<(), String> {
         "edit" => {
             let ops = ops();
             let seq: Vec<Op> = case["ops"].as_array().unwrap().iter().map(|v| ops[v.as_u64().unwrap() as usize]).collect();
-            println!("edits: {:?}", seq);
-            edit_machine(&seq)
+            let init = case.get("init").and_then(|i| i.as_u64()).unwrap_or(0) as usize;
+            println!("start tag: {}; edits: {:?}", INITS[init], seq);
+            edit_machine_from(init, &seq)
         }
         "element_writer" => {
             let eops = [EOp::Attr(0), EOp::Attr(1), EOp::Attr(2), EOp::Attrs, EOp::NewLine];
